@@ -806,6 +806,10 @@ func ruleCaseFold(c *Ctx, rule string) {
 				if bt, ok := x.X.Type().Underlying().(*types.Basic); ok && bt.Kind() == types.String {
 					str, what = x.X, "indexed"
 				}
+			case *ssa.Index:
+				if bt, ok := x.X.Type().Underlying().(*types.Basic); ok && bt.Kind() == types.String {
+					str, what = x.X, "indexed"
+				}
 			}
 			if str == nil {
 				continue
